@@ -45,8 +45,8 @@ structure S where
   out : Pipe := {}
   err : Pipe := {}
   inScript : List InItem := []
-  childStdin : List Chunk := []  -- everything written to the child's stdin, in order
-  fwd : List Chunk := []         -- ghost: the part written by the stdin handler
+  childStdin : List (Bool × Chunk) := []  -- everything written to the child's stdin, in order;
+                                          -- tag `true` = forwarded by the stdin handler, `false` = interrupt
   closeCount : Nat := 0
   kills : Nat := 0
   killsAfterReturn : Nat := 0    -- ghost: kills issued after `run` has returned/raised
@@ -157,7 +157,7 @@ def mainStep (s : S) : S :=
   match s.mainPc with
   | .poll =>
     if s.intr then { s with intr := false, mainPc := .sendIntr } else { s with mainPc := .pollDead s.exited }
-  | .sendIntr => { s with childStdin := s.childStdin ++ [[3]], mainPc := .poll }
+  | .sendIntr => { s with childStdin := s.childStdin ++ [(false, [3])], mainPc := .poll }
   | .pollDead fin => if fin || s.anyDead then { s with mainPc := .setFin } else { s with mainPc := .poll }
   | .setFin => enterJoin { s with fin := true } 0
   | .join i n tmo =>
@@ -183,22 +183,26 @@ def stdinStep (s : S) : S :=
       if !s.pty && !s.inClosed then { s with inScript := r, inPc := .close }
       else { s with inScript := r, inPc := .isSet false }
   | .write d =>
-    { s with childStdin := s.childStdin ++ [d], fwd := s.fwd ++ [d],
+    { s with childStdin := s.childStdin ++ [(true, d)],
              echoed := if s.echo then s.echoed ++ [d] else s.echoed, inPc := .isSet true }
   | .close => { s with closeCount := s.closeCount + 1, inClosed := true, inPc := .isSet false }
   | .isSet hasData => if s.fin && !hasData then { s with inPc := .done } else { s with inPc := .read }
   | .done => s
+
+/-- what SIGKILL does to the child: it ends (status -9) unless it had ended already; the pipes close
+    unless a grandchild still holds them -/
+def killEffect (s : S) : S :=
+  if s.exited then s
+  else { s with exited := true, rc := -9, out := closeIfUnheld s s.out, err := closeIfUnheld s s.err }
+
+def lateKill (s : S) : Nat := if s.mainPc = MainPc.done then 1 else 0
 
 def timerStep (s : S) : S :=
   if !s.hasTimer then s else
   match s.tmPc with
   | .armed => { s with tmPc := .kill }
   | .kill =>
-    let late : Nat := if s.mainPc = MainPc.done then 1 else 0
-    let s1 : S := { s with kills := s.kills + 1, killsAfterReturn := s.killsAfterReturn + late }
-    let s2 : S := if s1.exited then s1 else
-      { s1 with exited := true, rc := -9, out := closeIfUnheld s1 s1.out, err := closeIfUnheld s1 s1.err }
-    { s2 with tmPc := .finish }
+    { killEffect s with kills := s.kills + 1, killsAfterReturn := s.killsAfterReturn + lateKill s, tmPc := .finish }
   | .finish => { s with tmPc := .done }
   | _ => s
 
@@ -222,6 +226,11 @@ def evStep (s : S) : Ev → S
   | .env e => envStep s e
 
 def run (s : S) (evs : List Ev) : S := evs.foldl evStep s
+
+/-- the chunks the stdin handler forwarded to the child, in order -/
+def S.fwd (s : S) : List Chunk := (s.childStdin.filter (·.1)).map (·.2)
+/-- every byte the child received on its stdin, in order -/
+def S.childBytes (s : S) : List Nat := (s.childStdin.map (·.2)).flatten
 
 /-- `handle_stdin`'s echo rule: explicit `echo_stdin`, else "input is a tty and no pty" -/
 def effEcho (echoOpt : Option Bool) (pty inTty : Bool) : Bool :=
